@@ -22,6 +22,10 @@ func NewLocation(f *fs.File, i bytes.Index) Location {
 	if f.Content().Len() == 0 || i > f.Content().LenIndex() {
 		// There is nothing to quote and no line to compute: an empty file or an
 		// index beyond the end of the file.
+		if i == 0 {
+			// the only position of an empty file
+			loc.Line, loc.Column = 1, 1
+		}
 		return loc
 	}
 	loc.Quote = quote(f.Content(), i)
